@@ -162,6 +162,9 @@ impl World {
                 sp.spawn(format!("bindresp{side}"), TaskKind::MuxUser(side), async move {
                     let mut seen = 0usize;
                     let mut held = vec![];
+                    // answered requests are kept alive until the responder ends: dropping a BindRequest always sends a Reset
+                    // (documented behaviour), and forgetting it would leak its channel handle
+                    let mut answered = vec![];
                     let mut batch = vec![];
                     loop {
                         match m.next_bind_request().await {
@@ -184,12 +187,11 @@ impl World {
                                         match ans {
                                             BindAnswer::Accept => {
                                                 req.reply(true).ok();
-                                                // note: dropping a BindRequest after reply(true) still sends a Reset (documented trap, not asserted)
-                                                std::mem::forget(req);
+                                                answered.push(req);
                                             }
                                             BindAnswer::Reject => {
                                                 req.reply(false).ok();
-                                                std::mem::forget(req);
+                                                answered.push(req);
                                             }
                                             BindAnswer::DropIt => drop(req),
                                             BindAnswer::Hold => held.push(req),
@@ -199,10 +201,9 @@ impl World {
                             }
                             Err(e) => {
                                 log.app(AppEv::BindNextErr { side, err: format!("{e:?}") });
-                                // held requests are released when the responder ends
-                                for r in held.drain(..) {
-                                    std::mem::forget(r);
-                                }
+                                // held and answered requests are released when the responder ends (the connection is over)
+                                drop(held);
+                                drop(answered);
                                 return;
                             }
                         }
